@@ -223,7 +223,7 @@ def make_result_check(prop, terms, extra_kinds=(), oracle_keys=(), seq=None, wit
 
 check_C01 = make_result_check("C01", {"cv", "cs", "ci"})
 check_C02 = make_result_check("C02", {"find", "findix", "first", "firstix", "any", "all"})
-check_C03 = make_result_check("C03", {"red"})
+check_C03 = make_result_check("C03", {"red", "sum", "min", "max", "fold", "minby", "maxby", "minkey", "maxkey"})
 check_C04 = make_result_check("C04", {"cnt", "fe"}, extra_kinds=("calls",), oracle_keys=())
 check_C06 = make_result_check("C06", {"ci"})
 check_C07 = make_result_check("C07", {"cx"})
